@@ -832,6 +832,62 @@ func c8Run(c *C) {
 		}
 	}
 	c8Shadowing(c, r)
+	if !c.Failed() {
+		c8TwinTypes(c, r)
+	}
+}
+
+// Two DISTINCT struct types that print the same type name (function-local types, like model.User of two packages):
+// the same field names at different positions, a different number of fields, different methods.
+func c8TwinA(tag string) any {
+	type Rec struct {
+		Note string
+		Name string
+		N    int
+	}
+	return Rec{"note-" + tag, "name-" + tag, 1}
+}
+
+func c8TwinB(tag string) any {
+	type Rec struct {
+		Name string
+		Note string
+	}
+	return &Rec{"name-" + tag, "note-" + tag}
+}
+
+func c8TwinC(tag string) any {
+	type Rec struct{ N string }
+	return Rec{"n-" + tag}
+}
+
+// c8TwinTypes resolves the same paths on the twins, in a random order, with one compiled template and with fresh ones.
+func c8TwinTypes(c *C, r *Rng) {
+	mk := []func(string) any{c8TwinA, c8TwinB, c8TwinC}
+	want := []string{"name-%s|note-%s|1|note-%s", "name-%s|note-%s||note-%s", "||n-%s|"}
+	set, _ := newSet(emptySetFiles)
+	const src = "{{ rec.Name }}|{{ rec.Note }}|{{ rec.N }}|{{ rec[\"Note\"] }}"
+	shared, err := set.FromString(src)
+	if err != nil {
+		c.Fail("compile-error", D{"source": src, "error": err.Error()})
+		return
+	}
+	for k := 0; k < 6; k++ {
+		i := r.Intn(3)
+		tag := fmt.Sprint(k)
+		tpl := shared
+		if r.Bool() {
+			tpl, _ = set.FromString(src)
+		}
+		out, xerr := tpl.Execute(pongo2.Context{"rec": mk[i](tag)})
+		c.Eval(1)
+		exp := strings.ReplaceAll(want[i], "%s", tag)
+		if xerr != nil || out != exp {
+			c.Fail("wrong-value", D{"path": src, "root_value": fmt.Sprintf("%#v", mk[i](tag)), "output": out, "expected": exp, "error": errStr(xerr), "why": "distinct struct types with the same printed type name (seen in this order in this process)"})
+			return
+		}
+	}
+	c.Cover("twin_type_names")
 }
 
 // c8Shadowing: tag-bound names shadow context keys, which shadow the set's globals.
